@@ -10,6 +10,11 @@
  *                         complete job (create / options / assemble / destroy, all first letters) while A is held; A is
  *                         released, finishes its create and runs the job too; both are compared with the job run alone
  *                         afterwards.  k beyond the number of stores: B runs after A's create has completed.
+ *   thrdrv os <k>         deterministic interleaving at the library's OS calls (mmap / mremap / munmap, wrapped at link time):
+ *                         thread A (two library-managed instances, the second grows twice) is held right after its k-th such
+ *                         call has returned; thread B creates two library-managed instances and assembles into them; A is
+ *                         released and finishes; B keeps using its instances (one of them grows) and destroys them; both are
+ *                         compared with the same jobs run alone afterwards.
  * Output: "threads=N rounds=R steps=S mismatches=M" and, for the first mismatches, one line each.
  * Built with -fsanitize=thread (TSan reports go to stderr, exit code 66) and, separately, at -O2.
  */
@@ -21,6 +26,7 @@
 #include <stdlib.h>
 #include <string.h>
 #include <stdint.h>
+#include <time.h>
 
 #define NPROG 8
 static const char *PROGS[NPROG] = {
@@ -132,8 +138,101 @@ static int main_sched(int k) {
   return mism ? 1 : 0;
 }
 
+/* ---- deterministic interleaving at the OS calls of the library (built with -Wl,--wrap=mmap,--wrap=mremap,--wrap=munmap):
+   thread A is held right after its k-th mmap / mremap / munmap has returned ---- */
+#include <sys/mman.h>
+#include <stdarg.h>
+static volatile int os_hold_at = -1;
+static int os_calls = 0;
+
+static void os_point(void) {
+  if (os_hold_at < 0 || !pthread_equal(pthread_self(), thread_a)) return;
+  os_calls++;
+  if (os_calls == os_hold_at) {
+    __atomic_store_n(&a_held, 1, __ATOMIC_SEQ_CST);
+    while (!__atomic_load_n(&release_a, __ATOMIC_SEQ_CST)) sched_yield();
+  }
+}
+void *__real_mmap(void *, size_t, int, int, int, off_t);
+void *__wrap_mmap(void *a, size_t l, int p, int f, int fd, off_t o) { void *r = __real_mmap(a, l, p, f, fd, o); os_point(); return r; }
+void *__real_mremap(void *, size_t, size_t, int, ...);
+void *__wrap_mremap(void *a, size_t o, size_t n, int f, ...) { void *r = __real_mremap(a, o, n, f); os_point(); return r; }
+int __real_munmap(void *, size_t);
+int __wrap_munmap(void *a, size_t l) { int r = __real_munmap(a, l); os_point(); return r; }
+
+static char *big_text(void) {
+  static char *big = NULL;
+  if (!big) {
+    big = malloc(700 * 32 + 1);
+    char *w = big;
+    for (int i = 0; i < 700; i++) w += sprintf(w, "mov rax, 0x11223344556677%02x\n", i & 0xff);
+  }
+  return big;
+}
+#define REC(j, al, rc) do { int off_ = asm_get_offset(al); (j)->r[(j)->nsteps++] = (struct rec){rc, off_, -1, fnv(asm_get_code(al), off_ > 0 ? off_ : 0)}; } while (0)
+
+/* A: two library-managed instances; the second one grows twice (mremap has to move it: the first one sits right above it) */
+static void grow_job(struct job *j) {
+  j->nsteps = 0;
+  assemblyline_t x = asm_create_instance(NULL, 0);
+  assemblyline_t y = asm_create_instance(NULL, 0);
+  if (!x || !y) { j->r[j->nsteps++] = (struct rec){-9, 0, 0, 0}; return; }
+  int rc = asm_assemble_str(y, big_text()); REC(j, y, rc);
+  rc = asm_assemble_str(x, PROGS[0]); REC(j, x, rc);
+  rc = asm_assemble_str(y, big_text()); REC(j, y, rc);
+  rc = asm_assemble_str(x, PROGS[3]); REC(j, x, rc);
+  rc = asm_destroy_instance(y); j->r[j->nsteps++] = (struct rec){rc, 0, 0, 0};
+  rc = asm_destroy_instance(x); j->r[j->nsteps++] = (struct rec){rc, 0, 0, 0};
+}
+static void *os_a(void *p) { grow_job((struct job *)p); return NULL; }
+
+/* B: instances created while A is held, used again after A has finished */
+static assemblyline_t b1, b2;
+static void b_phase1(struct job *j) {
+  j->nsteps = 0;
+  b1 = asm_create_instance(NULL, 0);
+  b2 = asm_create_instance(NULL, 0);
+  if (!b1 || !b2) { j->r[j->nsteps++] = (struct rec){-9, 0, 0, 0}; return; }
+  int rc = asm_assemble_str(b1, PROGS[0]); REC(j, b1, rc);
+  rc = asm_assemble_str(b2, PROGS[3]); REC(j, b2, rc);
+}
+static void b_phase2(struct job *j) {
+  if (!b1 || !b2) return;
+  int rc = asm_assemble_str(b1, PROGS[1]); REC(j, b1, rc);
+  rc = asm_assemble_str(b2, big_text()); REC(j, b2, rc);
+  rc = asm_assemble_str(b1, PROGS[4]); REC(j, b1, rc);
+  rc = asm_destroy_instance(b1); j->r[j->nsteps++] = (struct rec){rc, 0, 0, 0};
+  rc = asm_destroy_instance(b2); j->r[j->nsteps++] = (struct rec){rc, 0, 0, 0};
+}
+
+static int main_os(int k) {
+  struct job *ja = calloc(1, sizeof *ja), *jb = calloc(1, sizeof *jb), *ra = calloc(1, sizeof *ra), *rb = calloc(1, sizeof *rb);
+  big_text();
+  /* warm-up create so that the index tables exist: this mode is about the buffers */
+  assemblyline_t w = asm_create_instance(NULL, 0);
+  if (w) asm_destroy_instance(w);
+  os_hold_at = k;
+  pthread_create(&thread_a, NULL, os_a, ja);
+  /* wait until A is held; A finishing its whole job is signalled through a_done_create by the wrapper below */
+  struct timespec ts = {0, 1000000};
+  int waited = 0;
+  while (!__atomic_load_n(&a_held, __ATOMIC_SEQ_CST) && waited < 2000 && pthread_tryjoin_np(thread_a, NULL) != 0) { nanosleep(&ts, NULL); waited++; }
+  int held = __atomic_load_n(&a_held, __ATOMIC_SEQ_CST);
+  b_phase1(jb);                      /* B creates and uses its instances while A is held after its k-th OS call */
+  __atomic_store_n(&release_a, 1, __ATOMIC_SEQ_CST);
+  if (held) pthread_join(thread_a, NULL);
+  b_phase2(jb);                      /* B goes on using them after A has finished */
+  os_hold_at = -1;
+  grow_job(ra);
+  b_phase1(rb); b_phase2(rb);
+  int mism = compare("thread B (created its instances while A was held after an OS call)", jb, rb) + compare("thread A", ja, ra);
+  printf("os k=%d held=%d os_calls_by_A=%d steps=%d mismatches=%d\n", k, held, os_calls, ra->nsteps + rb->nsteps, mism);
+  return mism ? 1 : 0;
+}
+
 int main(int argc, char **argv) {
   if (argc > 2 && !strcmp(argv[1], "sched")) return main_sched(atoi(argv[2]));
+  if (argc > 2 && !strcmp(argv[1], "os")) return main_os(atoi(argv[2]));
   int n = argc > 1 ? atoi(argv[1]) : 4;
   int rounds = argc > 2 ? atoi(argv[2]) : 3;
   if (n > 64) n = 64;
